@@ -90,7 +90,7 @@ class Ctx:
             flags[i] = True
 
     def violation(self, what: str, case, detail=None, mechanism: str | None = None):
-        v = {"what": what, "case": case, "detail": detail}
+        v = {"what": what, "case": case, "detail": detail, "hashseed": os.environ.get("PYTHONHASHSEED", "")}
         if mechanism is None:
             try:
                 mechanism = self.prop.classify(v)
@@ -160,9 +160,11 @@ def run_shards(pid, descs, workdir):
     lock = threading.Lock()
     nxt = [0]
     env = dict(os.environ)
-    env["PYTHONHASHSEED"] = "0"
     env["PYTHONPATH"] = HERE + os.pathsep + env.get("PYTHONPATH", "")
     env.setdefault("POLARS_MAX_THREADS", "1")
+    # the library's results must not depend on the string-hash seed: shards run under different (fixed) seeds,
+    # shard 0 under seed 0; a violation records the seed it was seen under and --replay re-runs under it
+    hashseeds = ["0", "1", "7", "4242", "977", "31337", "2", "65537"]
 
     def worker():
         while True:
@@ -179,7 +181,8 @@ def run_shards(pid, descs, workdir):
             t0 = time.time()
             try:
                 p = subprocess.run([PY, "-m", "rtfmon.run", "--shard", pid, dfile, ofile],
-                                   cwd=HERE, env=env, timeout=timeout,
+                                   cwd=HERE, env=dict(env, PYTHONHASHSEED=hashseeds[k % len(hashseeds)]),
+                                   timeout=timeout,
                                    stdout=subprocess.PIPE, stderr=subprocess.STDOUT)
                 out = p.stdout.decode("utf-8", "replace")[-3000:]
                 if os.path.exists(ofile):
@@ -230,6 +233,11 @@ def main(argv=None):
 
     if replay:
         data = json.load(open(replay))
+        hs = str(data.get("hashseed") or "0")
+        if os.environ.get("PYTHONHASHSEED") != hs:
+            # re-run under the string-hash seed the violation was observed with
+            os.execve(PY, [PY, "-m", "rtfmon.run"] + list(sys.argv[1:] if argv is None else argv),
+                      dict(os.environ, PYTHONHASHSEED=hs, PYTHONPATH=HERE + os.pathsep + os.environ.get("PYTHONPATH", "")))
         ctx = Ctx(prop)
         prop.replay(data, ctx)
         n = sum(s["count"] for s in ctx.viol.values())
@@ -367,7 +375,7 @@ def main(argv=None):
             path = os.path.join(rdir, name)
             with open(path, "w") as f:
                 json.dump({"property": pid, "mechanism": mech, "what": ex["what"],
-                           "case": ex["case"], "detail": ex["detail"],
+                           "case": ex["case"], "detail": ex["detail"], "hashseed": ex.get("hashseed", "0"),
                            "count_in_run": slot["count"], "tier": tier, "seed": seed},
                           f, indent=1, default=str)
             print(f"VIOLATION property={pid} replay={path}")
